@@ -40,6 +40,10 @@ SelectVecOK(ones, nw, v) ==
     /\ \A i \in 1..Len(ones) : v[i] = SelectD(ones, nw, i - 1)
 IdxSelectD(ones) == [j \in 1..CeilDiv(Len(ones), K) |-> ones[K * (j - 1) + 1]]
 
+\* the single-result select of the second (unexported) select family: -1 for a negative i, the
+\* position of the i-th 1-bit, W*nw when there is no such bit
+Select1D(ones, nw, i) == IF i < 0 THEN -1 ELSE IF i < Len(ones) THEN ones[i + 1] ELSE W * nw
+
 \* ---------------------------------------------------------------- next / prev (C13)
 NextD(S, i, end) == LET C == {p \in S : p >= i /\ p < end} IN IF C = {} THEN -1 ELSE Min(C)
 PrevD(S, i, end) == LET C == {p \in S : p >= i /\ p < end} IN IF C = {} THEN -1 ELSE Max(C)
